@@ -152,7 +152,7 @@ def random_trace(rng, D, lmin, lmax, steps, cap):
         r = rng.random()
         act = sorted(cs.active_index_set)
         act = [a for a in act if max(a) < cap] or act
-        if r < 0.7:
+        if r < 0.7 and act:
             v = list(rng.choice(act))
         elif r < 0.85 and cs.old_index_set:
             v = list(rng.choice(sorted(cs.old_index_set)))
@@ -201,7 +201,12 @@ def run(tier, seed):
         lmin = rng.randint(0, 2)
         lmax = lmin + rng.randint(0, 3 if D <= 3 else 2)
         cap = lmax + (6 if D <= 2 else 3 if D == 3 else 2)
-        tr, reqs = random_trace(rng, D, lmin, lmax, steps if D <= 3 else steps // 2, cap)
+        try:
+            tr, reqs = random_trace(rng, D, lmin, lmax, steps if D <= 3 else steps // 2, cap)
+        except Exception as ex:   # the implementation raised on a request sequence the property quantifies over
+            rep.violation('P_NoException', {'d': D, 'lmin': lmin, 'lmax': lmax, 'origin': 'random', 'exception': type(ex).__name__},
+                          {'d': D, 'lmin': lmin, 'lmax': lmax, 'exception': repr(ex)}, what='random request sequence raised %r' % ex)
+            continue
         traces.append(tr)
         rep.count(1, key=('rand', D, lmin, lmax, tuple(map(tuple, reqs))))
         if i < 2:
